@@ -8,7 +8,9 @@ RULE = ('E1: all 64 method classes x argument vectors with <= 2 deviations '
         '(thorough: full products) and Basic.Properties x the C02 space, '
         'each before and after an encode/decode round trip; names come from '
         'the spec table: list(iter) == [(name, getattr)] in wire order, '
-        'dict(), len, membership of every spec name and 20 foreign names, '
+        'dict(), len, membership of every spec name, 20 foreign names and '
+        'every name occurring among the object\'s own values (table keys, '
+        'strings; incl. tables keyed by the argument / property names), '
         'item access, attributes(), amqp_type. A case is (class, vector, '
         'before|after); non-trivial = not the default vector.')
 BOUNDS = {'quick': {'vectors': '<=2 deviations', 'properties': 'C02 quick'},
@@ -28,6 +30,7 @@ def tasks(tier, seed):
     else:
         out = [('m2', m.name) for m in spec_table.METHODS]
     out += [('h',) + tuple(t) for t in corpus.header_tasks(tier)]
+    out += [('names',)]
     return out
 
 
@@ -69,9 +72,27 @@ def mapping_view(obj, names, types, label):
                 bad.append('frame[{!r}] != attribute'.format(n))
         except Exception as exc:  # noqa
             bad.append('frame[{!r}] raised {!r}'.format(n, exc))
-    for n in FOREIGN:
-        if n not in names and n in obj:
-            bad.append('foreign name {!r} reported as member'.format(n))
+    # foreign names: a fixed list plus names taken from the object's own
+    # values (keys of its tables, its string values) - a view that consults
+    # the values instead of the name list would admit them
+    derived = []
+    for n in names:
+        v = getattr(obj, n, None)
+        if isinstance(v, dict):
+            derived += [k for k in v if isinstance(k, str)]
+            for inner in v.values():
+                if isinstance(inner, dict):
+                    derived += [k for k in inner if isinstance(k, str)]
+        elif isinstance(v, str) and len(v) < 64:
+            derived.append(v)
+    for n in FOREIGN + derived:
+        try:
+            if n not in names and n in obj:
+                bad.append('foreign name {!r} reported as member'.format(n))
+                break
+        except Exception as exc:  # noqa
+            bad.append('membership of {!r} raised {!r}'.format(n, exc))
+            break
     if list(cls.attributes()) != names:
         bad.append('attributes() {} != {}'.format(list(cls.attributes()),
                                                   names))
@@ -164,9 +185,37 @@ def check_props(ctx, props):
             ctx.outcome('ok')
 
 
+def name_keyed_cases():
+    """Tables whose keys are spelled like argument / property names."""
+    pnames = [a[0] for a in spec_table.PROPERTIES]
+    for k in range(len(pnames)):
+        keys = pnames[k:] + pnames[:k]
+        yield 'props', {'message_id': 'm-1', 'app_id': 'app',
+                        'headers': {n: 'header-%d' % i
+                                    for i, n in enumerate(keys[:5])}}
+        yield 'props', {'headers': {pnames[k]: {pnames[k]: 1}}}
+    for m in spec_table.METHODS:
+        tables = [i for i, a in enumerate(m.args) if a[1] == 'table']
+        for i in tables:
+            vec = list(corpus.default_vector(m))
+            vec[i] = {a[0]: 'shadow' for a in m.args}
+            yield 'method', (m, tuple(vec))
+
+
 def run(task, ctx):
     kind = task[0]
-    if kind in ('m', 'm2'):
+    if kind == 'names':
+        for what, arg in name_keyed_cases():
+            if what == 'props':
+                ctx.case(('props', canon(arg)), True, sample=lambda: {
+                    'properties': short(arg, 120)})
+                check_props(ctx, arg)
+            else:
+                ctx.case((arg[0].name, canon(list(arg[1]))), True,
+                         sample=lambda: {'method': arg[0].name,
+                                         'vec': short(list(arg[1]), 120)})
+                check_method(ctx, arg[0], arg[1])
+    elif kind in ('m', 'm2'):
         if kind == 'm':
             it = ((m, vec) for m, vec, ch, _i in
                   corpus.method_cases(task[1:], 'quick', ctx.seed))
